@@ -63,6 +63,14 @@ pub fn alloc_block(n: usize) {
 	}
 	let _ = n;
 }
+/// bound of the bitmap model's select() loop (asserted inside the model)
+pub fn bitmap_select_max(n: u32) {
+	#[cfg(kani)]
+	unsafe {
+		stubs::SELECT_MAX = n;
+	}
+	let _ = n;
+}
 pub fn alloc_reset() {
 	#[cfg(kani)]
 	unsafe {
@@ -350,6 +358,141 @@ pub mod stubs {
 		(bm(b) & upto(hi) & !upto(lo)).count_ones() as u64
 	}
 
+	// ---- E6 (full): the remaining set operations grin's store / chain code uses. All values live
+	// in the 64-value universe; anything outside it is cut off by an assumption (the harnesses
+	// keep every position < 63).
+	fn upto(n: u64) -> u64 {
+		if n >= 64 { u64::MAX } else { (1u64 << n) - 1 }
+	}
+	fn range_incl<R: core::ops::RangeBounds<u32>>(r: &R) -> (u64, u64) {
+		// (first, one-past-last) over u64 so that nothing wraps
+		use core::ops::Bound;
+		let start = match r.start_bound() { Bound::Included(&s) => s as u64, Bound::Excluded(&s) => s as u64 + 1, Bound::Unbounded => 0 };
+		let end = match r.end_bound() { Bound::Included(&e) => e as u64 + 1, Bound::Excluded(&e) => e as u64, Bound::Unbounded => 1u64 << 32 };
+		(start, end)
+	}
+	fn range_mask<R: core::ops::RangeBounds<u32>>(r: &R) -> u64 {
+		let (s, e) = range_incl(r);
+		if s >= e { 0 } else { upto(e) & !upto(s) }
+	}
+	pub static mut SELECT_MAX: u32 = 64;
+	pub fn bitmap_rank(b: &croaring::Bitmap, x: u32) -> u64 {
+		(bm(b) & upto(x as u64 + 1)).count_ones() as u64
+	}
+	pub fn bitmap_select(b: &croaring::Bitmap, position: u32) -> Option<u32> {
+		// the element of rank `position` (0-based): clear the lowest set bit `position` times
+		let mut v = bm(b);
+		if position as u64 >= v.count_ones() as u64 {
+			return None;
+		}
+		kani::assert(v.count_ones() <= unsafe { SELECT_MAX }, "bitmap model: select() is bounded by the harness' SELECT_MAX elements");
+		let mut k = 0u32;
+		while k < unsafe { SELECT_MAX } {
+			if k < position {
+				v &= v.wrapping_sub(1);
+			}
+			k += 1;
+		}
+		Some(v.trailing_zeros())
+	}
+	pub fn bitmap_maximum(b: &croaring::Bitmap) -> Option<u32> {
+		let v = bm(b);
+		if v == 0 { None } else { Some(63 - v.leading_zeros()) }
+	}
+	pub fn bitmap_minimum(b: &croaring::Bitmap) -> Option<u32> {
+		let v = bm(b);
+		if v == 0 { None } else { Some(v.trailing_zeros()) }
+	}
+	pub fn bitmap_remove_range<R: core::ops::RangeBounds<u32>>(b: &mut croaring::Bitmap, r: R) {
+		let v = bm(b) & !range_mask(&r);
+		bm_set(b, v);
+	}
+	pub fn bitmap_add_range<R: core::ops::RangeBounds<u32>>(b: &mut croaring::Bitmap, r: R) {
+		let (_, e) = range_incl(&r);
+		kani::assume(e <= 64);
+		let v = bm(b) | range_mask(&r);
+		bm_set(b, v);
+	}
+	pub fn bitmap_or_inplace(b: &mut croaring::Bitmap, o: &croaring::Bitmap) {
+		let v = bm(b) | bm(o);
+		bm_set(b, v);
+	}
+	pub fn bitmap_and(b: &croaring::Bitmap, o: &croaring::Bitmap) -> croaring::Bitmap {
+		let mut r = bitmap_new();
+		bm_set(&mut r, bm(b) & bm(o));
+		r
+	}
+	pub fn bitmap_andnot(b: &croaring::Bitmap, o: &croaring::Bitmap) -> croaring::Bitmap {
+		let mut r = bitmap_new();
+		bm_set(&mut r, bm(b) & !bm(o));
+		r
+	}
+	pub fn bitmap_flip<R: core::ops::RangeBounds<u32>>(b: &croaring::Bitmap, r: R) -> croaring::Bitmap {
+		let (_, e) = range_incl(&r);
+		kani::assume(e <= 64);
+		let mut out = bitmap_new();
+		bm_set(&mut out, bm(b) ^ range_mask(&r));
+		out
+	}
+	pub fn bitmap_run_optimize(_b: &mut croaring::Bitmap) -> bool {
+		false
+	}
+	pub fn bitmap_clone(b: &croaring::Bitmap) -> croaring::Bitmap {
+		let mut r = bitmap_new();
+		bm_set(&mut r, bm(b));
+		r
+	}
+	pub fn bitmap_eq(b: &croaring::Bitmap, o: &croaring::Bitmap) -> bool {
+		bm(b) == bm(o)
+	}
+	pub fn bitmap_extend<T: IntoIterator<Item = u32>>(b: &mut croaring::Bitmap, iter: T) {
+		for x in iter {
+			bitmap_add(b, x);
+		}
+	}
+	/// harness-side access to the modelled set
+	pub fn bitmap_bits(b: &croaring::Bitmap) -> u64 {
+		bm(b)
+	}
+	pub fn bitmap_of_bits(v: u64) -> croaring::Bitmap {
+		let mut r = bitmap_new();
+		bm_set(&mut r, v);
+		r
+	}
+	// iteration: croaring's BitmapIterator wraps a BitmapCursor over the C iterator struct. The
+	// model keeps a snapshot of the not-yet-visited values in the (otherwise unused) `parent`
+	// pointer field; Rust's borrow rules already forbid mutating the bitmap while iterating.
+	#[repr(C)]
+	pub struct CurMirror {
+		pub rem: u64, // parent: *const roaring_bitmap_t
+		pub container: usize,
+		pub typecode: u8,
+		pub container_index: i32,
+		pub highbits: u32,
+		pub container_it: i32,
+		pub current_value: u32,
+		pub has_value: bool,
+	}
+	const _: () = assert!(core::mem::size_of::<CurMirror>() == core::mem::size_of::<croaring::bitmap::BitmapCursor<'static>>());
+	fn cur_step(c: &mut CurMirror) {
+		if c.rem == 0 {
+			c.has_value = false;
+		} else {
+			c.has_value = true;
+			c.current_value = c.rem.trailing_zeros();
+			c.rem &= c.rem.wrapping_sub(1);
+		}
+	}
+	pub fn cursor_at_first<'a>(b: &'a croaring::Bitmap) -> croaring::bitmap::BitmapCursor<'a> where 'a: 'a {
+		let mut c = CurMirror { rem: bm(b), container: 0, typecode: 0, container_index: 0, highbits: 0, container_it: 0, current_value: 0, has_value: false };
+		cur_step(&mut c);
+		unsafe { core::mem::transmute::<CurMirror, croaring::bitmap::BitmapCursor<'a>>(c) }
+	}
+	pub fn cursor_move_next<'a>(cur: &mut croaring::bitmap::BitmapCursor<'a>) where 'a: 'a {
+		let c: &mut CurMirror = unsafe { &mut *(cur as *mut croaring::bitmap::BitmapCursor<'a> as *mut CurMirror) };
+		cur_step(c);
+	}
+
 	// ---- E12: allocation ghost. Every request is checked against ALLOC_LIMIT (set by the
 	// harness); the request is then served by a block of the *concrete* size ALLOC_BLOCK so that
 	// no heap object has a symbolic size (symbolic-size objects are what made 8-byte decoder
@@ -426,6 +569,20 @@ macro_rules! proof {
 			#[cfg_attr(kani, kani::stub(croaring::Bitmap::cardinality, crate::env::stubs::bitmap_cardinality))]
 			#[cfg_attr(kani, kani::stub(croaring::Bitmap::is_empty, crate::env::stubs::bitmap_is_empty))]
 			#[cfg_attr(kani, kani::stub(croaring::Bitmap::range_cardinality, crate::env::stubs::bitmap_range_cardinality))]
+			#[cfg_attr(kani, kani::stub(croaring::Bitmap::rank, crate::env::stubs::bitmap_rank))]
+			#[cfg_attr(kani, kani::stub(croaring::Bitmap::select, crate::env::stubs::bitmap_select))]
+			#[cfg_attr(kani, kani::stub(croaring::Bitmap::maximum, crate::env::stubs::bitmap_maximum))]
+			#[cfg_attr(kani, kani::stub(croaring::Bitmap::minimum, crate::env::stubs::bitmap_minimum))]
+			#[cfg_attr(kani, kani::stub(croaring::Bitmap::remove_range, crate::env::stubs::bitmap_remove_range))]
+			#[cfg_attr(kani, kani::stub(croaring::Bitmap::add_range, crate::env::stubs::bitmap_add_range))]
+			#[cfg_attr(kani, kani::stub(croaring::Bitmap::or_inplace, crate::env::stubs::bitmap_or_inplace))]
+			#[cfg_attr(kani, kani::stub(croaring::Bitmap::and, crate::env::stubs::bitmap_and))]
+			#[cfg_attr(kani, kani::stub(croaring::Bitmap::andnot, crate::env::stubs::bitmap_andnot))]
+			#[cfg_attr(kani, kani::stub(croaring::Bitmap::flip, crate::env::stubs::bitmap_flip))]
+			#[cfg_attr(kani, kani::stub(croaring::Bitmap::run_optimize, crate::env::stubs::bitmap_run_optimize))]
+			#[cfg_attr(kani, kani::stub(<croaring::Bitmap as core::clone::Clone>::clone, crate::env::stubs::bitmap_clone))]
+			#[cfg_attr(kani, kani::stub(croaring::bitmap::BitmapCursor::at_first, crate::env::stubs::cursor_at_first))]
+			#[cfg_attr(kani, kani::stub(croaring::bitmap::BitmapCursor::move_next, crate::env::stubs::cursor_move_next))]
 		] $($rest)* }
 	};
 	( @acc [alloc, $($g:ident,)*] [$($a:tt)*] $($rest:tt)* ) => {
